@@ -46,6 +46,20 @@ def check_index(w, idx, parent=None):
           [inner.top - 1 + k * inner.step for k in range(max(inner.width, 0))]
     if inner.width != len(expect):
         return ("post.width", f"Signal(width={w})[{idx!r}].width == {inner.width}, Python selects {len(expect)}")
+    if sl.parent is not s:
+        # the Slice hangs off something else than what was indexed (say, what `s` is itself a piece of): it is the BITS
+        # it selects that count, not where they are counted from
+        try:
+            from rtc.bitspec import bits
+            pb_s, pb_p = bits(s), bits(sl.parent)
+        except Exception:
+            pb_s = None
+        if pb_s is not None:
+            if not all(0 <= g < len(pb_p) for g in got) or [pb_p[g] for g in got] != [pb_s[e_] for e_ in expect]:
+                return ("post.sel", f"Signal(width={w})[{idx!r}] denotes {got} of {sl.parent}, Python selects {expect} of the indexed object")
+            if sl.width != inner.width or sl.top != inner.top or sl.bot != inner.bot or sl.step != inner.step:
+                return ("post.cached", f"Slice properties disagree with _slice_inner for {idx!r}")
+            return None
     if got != expect:
         return ("post.sel", f"Signal(width={w})[{idx!r}] denotes {got}, Python selects {expect}")
     if not (0 <= inner.bot < inner.top <= w and all(inner.bot <= g < inner.top for g in got)):
@@ -93,12 +107,23 @@ def check_same_parent(case):
 
 
 REF_KINDS = ("module-port", "external-port", "bundle-member", "nested-bundle-member", "signal", "slice-of-signal",
-             "concat-of-signals")
+             "concat-of-signals", "piece-explicit-start", "piece-from-end", "piece-reversed", "piece-strided",
+             "piece-of-piece", "piece-of-concat")
+PIECES = {   # w bits of something wider: an index must be judged against the PIECE, not against what lies beneath it
+    "piece-explicit-start": lambda h, w: h.Signal(name="s", width=w + 4)[2:2 + w],
+    "piece-from-end": lambda h, w: h.Signal(name="s", width=w + 4)[-w - 1:-1],
+    "piece-reversed": lambda h, w: h.Signal(name="s", width=w + 4)[w + 1:1:-1],
+    "piece-strided": lambda h, w: h.Signal(name="s", width=2 * w + 3)[1:1 + 2 * w:2],
+    "piece-of-piece": lambda h, w: h.Signal(name="s", width=w + 6)[1:w + 5][2:2 + w],
+    "piece-of-concat": lambda h, w: h.Concat(h.Signal(name="s", width=w + 1), h.Signal(name="t", width=3))[1:1 + w],
+}
 
 
 def ref_parent(kind, w):
     """-> (sliceable parent of width w, resize(w2) changing the width of what it stands for)"""
     import hdl21 as h
+    if kind in PIECES:
+        return PIECES[kind](h, w), None
     if kind == "module-port":
         c = h.Module(name="RefChild")
         c.p = h.Port(width=w)
@@ -143,7 +168,7 @@ def ref_parent_cases(W, rnd, n):
             idxs = rng + [slice(a, b, c) for a in [None] + rng for b in [None] + rng for c in (None, 1, -1, 2)]
             for idx in idxs:
                 yield (kind, w, idx)
-            for _ in range(n):
+            for _ in range(0 if kind in PIECES else n):
                 w2 = rnd.randint(1, W)
                 if w2 != w and not (kind == "concat-of-signals" and 1 in (w, w2)):
                     yield (kind, w, rnd.choice(idxs), w2, rnd.choice(idxs + list(range(-w2 - 1, w2 + 1))))
@@ -367,7 +392,7 @@ def run(ctx):
         bound=f"widths<={W}, 2 indexings", key_of=repr)
     ctx.run_bounded(
         "reference-parents", ref_parent_cases(W, random.Random(ctx.seed + 9), 200 if thorough else 40), check_ref_parent,
-        rule="the run-time form of the _slice_inner contract on parents of 7 kinds (port reference through a module / an "
+        rule="the run-time form of the _slice_inner contract on parents of 13 kinds (six of them w-bit PIECES of something wider - from an explicit start, from the end, reversed, strided, of a piece, of a concatenation -; port reference through a module / an "
              "external module instance, bundle member and nested bundle member references, signal, full slice, "
              "concatenation) of widths 1-4, every int index and slice with bounds in [-w-1, w] and steps None, +-1, 2; "
              "plus histories: indexed, the referent resized, the same parent object indexed again (seeded)",
